@@ -88,8 +88,11 @@ func (d *EventTriggerDefinition) MarshalBytes() []byte {
 // Validate checks if the event trigger definition is valid.
 //
 // A trigger definition is valid if
-//   - all log predicates are valid and
-//   - there are no two log BytesEq predicates for the same topic
+//   - all log predicates are valid,
+//   - there are no two log BytesEq predicates for the same topic, and
+//   - the argument of each BytesEq predicate on a topic is exactly one word
+//     (topics are always 32 bytes, so any other length could never match and
+//     no filter query could be derived for it)
 func (d *EventTriggerDefinition) Validate() error {
 	for i, lp := range d.LogPredicates {
 		if err := lp.Validate(); err != nil {
@@ -104,6 +107,10 @@ func (d *EventTriggerDefinition) Validate() error {
 		}
 		if _, exists := topicMap[lp.LogValueRef.Offset]; exists {
 			return fmt.Errorf("duplicate BytesEq log predicate for topic %d at index %d", lp.LogValueRef.Offset, i)
+		}
+		if n := len(lp.ValuePredicate.ByteArgs[0]); n != Word {
+			return fmt.Errorf("BytesEq log predicate for topic %d at index %d must have a %d-byte argument, got %d bytes",
+				lp.LogValueRef.Offset, i, Word, n)
 		}
 		topicMap[lp.LogValueRef.Offset] = struct{}{}
 	}
